@@ -48,7 +48,7 @@ def run(res, only=None):
         parts.append(("tt", jobs, out))
     nontriv = 0
     for name, cases, out in parts:
-        for c, r in zip(cases, out):
+        for c, r in common.good(cases, out, res):
             cnt = r["cnt"]
             if name == "sweep":
                 res.add("traces_validated_against_impl", cnt["executions"])
